@@ -22,7 +22,28 @@ OUT = os.path.join(VERIF, "out")
 EVID = os.path.join(VERIF, "evidence")
 BIN = os.path.join(HARNESS, "target", "release", "pqverif")
 TLA_CP = "/opt/veriftools/tla/tla2tools.jar:/opt/veriftools/tla/CommunityModules-deps.jar"
+TLAPS_LIB = "/opt/veriftools/tlapm/lib/tlapm/stdlib"      # TLAPS.tla (TableLemma.tla is also read by TLC)
 NCPU = min(16, os.cpu_count() or 4)
+
+
+def run_tlapm(module, wd, timeout=1800):
+    """check the proofs of spec/<module>.tla with the TLA+ proof system; returns (obligations, proved)"""
+    import shutil as _sh
+    src = os.path.join(SPEC, module + ".tla")
+    dst = os.path.join(wd, module + ".tla")
+    _sh.copy(src, dst)
+    try:
+        rc, out = sh(["tlapm", "--threads", "8", "--cleanfp", module + ".tla"], cwd=wd, timeout=timeout)
+    except subprocess.TimeoutExpired:
+        raise ToolError("tlapm timed out on " + module)
+    open(os.path.join(wd, module + ".tlapm.out"), "w").write(out)
+    m = re.search(r"All (\d+) obligations? proved", out)
+    if m:
+        return int(m.group(1)), int(m.group(1)), out
+    m = re.search(r"(\d+)/(\d+) obligations? failed", out)
+    if m:
+        return int(m.group(2)), int(m.group(2)) - int(m.group(1)), out
+    raise ToolError("tlapm: unexpected output for %s: %s" % (module, out[-500:]))
 
 WITNESS_OPS = {"contents", "sorted"}
 
@@ -72,7 +93,7 @@ def java_tlc(args, cwd, env=None, timeout=3600, xmx="4g", xss=None, deque=False,
         cmd.append("-Xss" + xss)
     if deque:
         cmd.append("-Dtlc2.tool.queue.IStateQueue=StateDeque")
-    cmd += ["-cp", TLA_CP, "tlc2.TLC"] + args
+    cmd += ["-DTLA-Library=" + TLAPS_LIB, "-cp", TLA_CP, "tlc2.TLC"] + args
     try:
         return sh(cmd, cwd=cwd, env=env, timeout=timeout)
     except subprocess.TimeoutExpired:
